@@ -46,6 +46,8 @@ Init(cfg) ==
      faulted |-> [c |-> FALSE, s |-> FALSE],
      panicked |-> [c |-> FALSE, s |-> FALSE],
      resetS |-> {},          \* stream ids reset / abandoned by either application or by a RST_STREAM
+     goLast |-> [c |-> -1, s |-> -1],                   \* last-stream-id of the latest GOAWAY received
+     firstEnd |-> [c |-> <<"", 0>>, s |-> <<"", 0>>],   \* first thing that ended the connection: <<kind, code>>
      v |-> <<>>, hits |-> EmptyMap]
 
 Viol(a, rule, l, ep, sid, info) ==
@@ -174,7 +176,8 @@ CensusEnd(a, l, ws) ==
 
 \* ---- C17 surfacing of peer errors -----------------------------------------------------
 \* record causes when frames have been handed to E
-Causes(a, e) ==
+SetEnd(a, ep, kind, code) == IF a.firstEnd[ep][1] = "" THEN [a EXCEPT !.firstEnd[ep] = <<kind, code>>] ELSE a
+Causes0(a, e) ==
     IF e.t = "in" /\ e.f.ty = "RST_STREAM" /\ e.f.bad = ""
     THEN LET ep == e.ep
              c == IF e.f.ch < 32768 THEN e.f.ch * 65536 + e.f.cl ELSE -2
@@ -189,6 +192,18 @@ Causes(a, e) ==
     ELSE IF e.t = "rd" /\ e.n = 0 THEN [a EXCEPT !.faulted[e.ep] = TRUE]
     ELSE IF e.t = "sd" THEN [a EXCEPT !.faulted[e.ep] = TRUE]
     ELSE a
+
+Causes(a, e) ==
+    LET b == Causes0(a, e) IN
+    IF e.t = "in" /\ e.f.ty = "GOAWAY" /\ e.f.bad = ""
+    THEN LET b2 == [b EXCEPT !.goLast[e.ep] = e.f.last] IN
+         IF a.goLast[e.ep] >= 0 /\ e.f.last > a.goLast[e.ep] THEN SetEnd(b2, e.ep, "peer_bad", 0)   \* increasing id: the peer's violation
+         ELSE IF e.f.ch # 0 \/ e.f.cl # 0 THEN SetEnd(b2, e.ep, "goaway_in", IF e.f.ch < 32768 THEN e.f.ch * 65536 + e.f.cl ELSE -2)
+         ELSE b2
+    ELSE IF e.t = "in" /\ e.f.bad # "" THEN SetEnd(b, e.ep, "peer_bad", 0)
+    ELSE IF e.t = "fault" /\ e.ep \in {"c", "s"} THEN SetEnd(b, e.ep, "fault", 0)
+    ELSE IF e.t \in {"rd", "wr"} /\ e.n \in {0, -2} THEN SetEnd(b, e.ep, "io", 0)
+    ELSE b
 
 Surfacing(a, e, l) ==
     LET ep == e.ep
@@ -266,11 +281,27 @@ ConnEnd(a, e) ==
     IF (e.call = "conn_poll" /\ e.res \in {"ok", "err"}) \/ e.call = "conn_drop" \/ (e.call = "handshake" /\ e.res = "err")
     THEN [a EXCEPT !.faulted[e.ep] = TRUE] ELSE a
 
+\* C15: what the API reports around GOAWAY
+GoAwayApi(a, e, l, ws) ==
+    LET ep == e.ep IN
+    IF ep \notin DOMAIN ws THEN a
+    ELSE IF e.call = "send_request" /\ e.res = "ok" /\ ws[ep].goInBound
+    THEN Viol(Hit(a, "C15.no_request_after_goaway"), "C15.no_request_after_goaway", l, ep, e.sid, "send_request accepted after a GOAWAY had been received and processed")
+    ELSE IF e.call = "send_request" /\ e.res = "err" /\ ws[ep].goInBound THEN Hit(a, "C15.no_request_after_goaway")
+    ELSE IF e.call = "conn_poll" /\ e.res \in {"ok", "err"} /\ a.firstEnd[ep][1] = "goaway_in"
+    THEN \* the connection's result reports the peer's error code
+         \* (when the peer sent several GOAWAYs, reporting any of them is accepted - also a NO_ERROR one as success)
+         Check(a, "C15.conn_result", \/ (e.res = "err" /\ e.e.kind = "goaway" /\ e.e.remote /\ <<"goaway", ErrCode(e.e)>> \in a.connCause[ep])
+                                     \/ (e.res = "ok" /\ <<"goaway", 0>> \in a.connCause[ep]),
+               l, ep, 0, <<e.res, e.e.kind, ErrCode(e.e), a.connCause[ep]>>)
+    ELSE a
+
 Step(a, e, l, ws) ==
     IF e.t = "api"
-    THEN ConnEnd(Surfacing(Capacity(Deliver(Submit(a, e, l), e, l), e, l, ws), e, l), e)
+    THEN ConnEnd(GoAwayApi(Surfacing(Capacity(Deliver(Submit(a, e, l), e, l), e, l, ws), e, l), e, l, ws), e)
     ELSE IF e.t = "out" /\ e.f.ty = "DATA"
     THEN [a EXCEPT !.wire[e.ep] = Put(a.wire[e.ep], e.f.sid, Get(a.wire[e.ep], e.f.sid, 0) + e.f.len)]
+    ELSE IF e.t = "out" /\ e.f.ty = "GOAWAY" /\ (e.f.ch # 0 \/ e.f.cl # 0) THEN SetEnd(a, e.ep, "goaway_out", 0)
     ELSE IF e.t \in {"in", "fault", "rd", "wr", "sd"} THEN Causes(a, e)
     ELSE IF e.t = "census_begin" THEN [a EXCEPT !.censusOn = TRUE, !.censusSum = [c |-> 0, s |-> 0]]
     ELSE IF e.t = "census_end" THEN CensusEnd(a, l, ws)
